@@ -78,3 +78,31 @@ func TestVerifC20Decorator(t *testing.T) {
 		return vw.PropC20(c, "decorator", env, newC20DecoratorDriver(env))
 	})
 }
+
+func TestVerifC17Fingerprint(t *testing.T) {
+	vs.Run(t, "C17", func(c *vs.Case) error {
+		var err error
+		switch c.Int(5) {
+		case 0:
+			c.Class("carrier:C01")
+			err = vw.PropC01(c, decoratorFactory, "decorator")
+		case 1:
+			c.Class("carrier:C02")
+			err = vw.PropC02(c, decoratorFactory, "decorator")
+		case 2:
+			c.Class("carrier:C16")
+			err = vw.PropC16(c, decoratorFactory)
+		case 3:
+			c.Class("carrier:C10")
+			err = vw.PropC10(c, decoratorFactory, "decorator")
+		default:
+			c.Class("carrier:C13")
+			err = vw.PropC13(c, decoratorFactory, "decorator")
+		}
+		return vw.OnlyC17(err)
+	})
+}
+
+func TestVerifC17Race(t *testing.T) {
+	vs.Run(t, "C17", func(c *vs.Case) error { return vw.PropC17Race(c, decoratorFactory, "decorator") })
+}
